@@ -112,6 +112,9 @@ def run(tier):
     # freeform layouts in which a word in front of a group of prompt lines (Benchmark:, Script:, ...) switches that group off
     collectlib.run_space(out, 'C07 skip words', 'C07_HdrItems', 'C07_HdrModDocs', 2, _one, sig, limit=b['limit'], fillers='C07_HdrFill', maxdepth=1)
     collectlib.deviation_must_fail(out, 'C07_HdrItems', 'C07_HdrModDocs', 1, 'SkipWordSticks', fillers='C07_HdrFill')
+    # documented definitions inside except / else / finally / case / if-else / for-else clauses and for bodies
+    collectlib.run_space(out, 'C07 clauses', 'Clause_Items', 'C07_ModDocs', 3, _one, sig, limit=b['limit'], maxdepth=2)
+    collectlib.deviation_must_fail(out, 'Clause_Items', 'C07_ModDocs', 2, 'SkipClauseBodies')
     for dev in ('CollectNestedClass', 'CollectMainGuard', 'CollectSetters', 'VisitFunctionBody', 'NoAsyncVisit'):
         collectlib.deviation_must_fail(out, 'C07_Items', 'C07_ModDocs', 2 if dev != 'CollectSetters' else 3, dev)
     from . import c17, corpus_collect
